@@ -224,6 +224,39 @@ Definition bump : M unit :=
            | None => ROk tt (set_ht h s)
            end.
 
+(* `self.recursion_depth += 1; if > MAX { -= 1; Err } ; run ; -= 1`: the shared shape of
+   inner_parse_expression (parser.rs:685-697) and parse_until (1638-1651) *)
+Definition counted {A} (m : M A) : M A :=
+  fun s =>
+    let s1 := set_rd (S (rd s)) s in
+    if c_max_rd C <? rd s1 then RErr s
+    else match m s1 with
+         | ROk a s2 => ROk a (set_rd (pred (rd s2)) s2)
+         | RErr s2 => RErr (set_rd (pred (rd s2)) s2)
+         | RPanic s2 => RPanic s2
+         | RFuel => RFuel
+         end.
+
+(* the repair in inner_parse_expression: the sub-expression starts a tree of its own
+   (`mem::take(&mut self.expr_height)`); once done it is one level below the caller's *)
+Definition sub_height {A} (m : M A) : M A :=
+  fun s =>
+    let outer := ht s in
+    match m (set_ht 0 s) with
+    | ROk a s2 => ROk a (set_ht (Nat.max outer (S (ht s2))) s2)
+    | r => r
+    end.
+
+(* the repair in parse_if: `elif_depth += 1; if > MAX_ELIF_DEPTH { Err }; run; elif_depth -= 1` *)
+Definition elif_counted {A} (m : M A) : M A :=
+  fun s =>
+    let s1 := set_el (S (el s)) s in
+    if match c_elif_limit C with Some lim => lim <? el s1 | None => false end then RErr s1
+    else match m s1 with
+         | ROk a s2 => ROk a (set_el (pred (el s2)) s2)
+         | r => r
+         end.
+
 Definition push_ctx (c : bctx) : M unit := upd (fun s => set_ctxs (c :: ctxs s) s).
 Definition pop_ctx : M unit := upd (fun s => set_ctxs (tl (ctxs s)) s).
 
@@ -241,17 +274,7 @@ Fixpoint loop_ctx_ok (l : list bctx) : bool :=
 Fixpoint inner_parse_expression (fuel : nat) (min_bp : nat) {struct fuel} : M tree :=
   match fuel with 0 => fun _ => RFuel | S f =>
   (* parser.rs:685-697 *)
-  fun s =>
-    let s1 := set_rd (S (rd s)) s in
-    if c_max_rd C <? rd s1 then RErr s
-    else
-      let outer := ht s1 in
-      match call (parse_expr_bp f min_bp) (set_ht 0 s1) with
-      | ROk t s2 => ROk t (set_ht (Nat.max outer (S (ht s2))) (set_rd (pred (rd s2)) s2))
-      | RErr s2 => RErr (set_rd (pred (rd s2)) s2)
-      | RPanic s2 => RPanic s2
-      | RFuel => RFuel
-      end
+  counted (sub_height (call (parse_expr_bp f min_bp)))
   end
 
 (* parse_expression, parser.rs:1006-1008: a frame of its own *)
@@ -477,17 +500,7 @@ with parse_list_comprehension (fuel : nat) (e : tree) {struct fuel} : M tree :=
 
 (* parse_until, parser.rs:1638-1651 *)
 with parse_until (fuel : nat) (endp : word -> bool) {struct fuel} : M (list tree) :=
-  match fuel with 0 => fun _ => RFuel | S f =>
-  fun s =>
-    let s1 := set_rd (S (rd s)) s in
-    if c_max_rd C <? rd s1 then RErr s
-    else match call (until_loop f endp []) s1 with
-         | ROk ns s2 => ROk ns (set_rd (pred (rd s2)) s2)
-         | RErr s2 => RErr (set_rd (pred (rd s2)) s2)
-         | RPanic s2 => RPanic s2
-         | RFuel => RFuel
-         end
-  end
+  match fuel with 0 => fun _ => RFuel | S f => counted (call (until_loop f endp [])) end
 
 (* parse_until_inner, parser.rs:1653-1704: entered with `call` from parse_until, iterations free *)
 with until_loop (fuel : nat) (endp : word -> bool) (acc : list tree) {struct fuel} : M (list tree) :=
@@ -594,12 +607,7 @@ with parse_if (fuel : nat) {struct fuel} : M tree :=
   false_body <- match nx with
                 | Some (TWord WElif) =>
                     next_or_error ;;;
-                    n <- get el ;;
-                    upd (set_el (S n)) ;;;
-                    if match c_elif_limit C with Some lim => lim <? S n | None => false end then err else
-                    i <- call (parse_if f) ;;
-                    n' <- get el ;;
-                    upd (set_el (pred n')) ;;;
+                    i <- elif_counted (call (parse_if f)) ;;
                     ret [i]
                 | Some (TWord WElse) =>
                     next_or_error ;;;
